@@ -1,5 +1,6 @@
 import Orx.KSRun
 import Orx.KSLedger
+import Orx.KSFault
 import Orx.IW.Outs
 /-! # C08 Consumed elements are moved out or dropped exactly once -/
 namespace Orx.Props.C08
@@ -90,6 +91,35 @@ theorem vec_array_ledger_invariant (s : KSrc) (hown : s.owning = true) (progs : 
     ((run s σ (init s progs)).mv ++ (run s σ (init s progs)).dr).count p
       = (consumed s.len (atomsOf (run s σ (init s progs)).hist 0) 0).count p :=
   ledger_all_schedules s hown progs hp σ p
+
+/-- **… also when an element's destructor panics.** `s.dpanic = some k` makes the `k`-th destruction performed by the
+machinery panic (in a chunk's `Drop`, inside `Iterator::nth`, in `skip_to_end`, in the iterator's `Drop`, in the
+remainder of `into_seq_iter`): for every `k`, every program family, every schedule and either ending, every position
+below `len` is still moved out or destroyed exactly once — the machinery never forgets the elements behind a
+panicking one and never destroys one twice while unwinding. (`runF`/`ownerF` are what the driver runs.) -/
+theorem vec_array_exactly_once_with_panicking_destructor (s : KSrc) (hown : s.owning = true)
+    (progs : Nat → List SOp) (hp : ∀ t, ∀ o ∈ progs t, OwnProg o) (σ : List Nat) (op : OwnerOp) (p : Nat)
+    (hw : NoWrap s.len (atomsOf (runF s σ (init s progs)).hist 0) 0) :
+    ((ownerF s (runF s σ (init s progs)) op).1.mv ++ (ownerF s (runF s σ (init s progs)) op).1.dr).count p
+      = if p < s.len then 1 else 0 :=
+  exactly_once_all_schedules_F s hown progs hp σ op p hw
+
+/-- a destructor panic never changes what is handed out -/
+theorem panicking_destructor_same_handout (s : KSrc) (progs : Nat → List SOp) (hp : ∀ t, ∀ o ∈ progs t, NoCloneOp o)
+    (σ : List Nat) :
+    let c := runF s σ (init s progs)
+    NoSkip (atomsOf c.hist 0) → NoWrap s.len (atomsOf c.hist 0) 0 →
+      delOf c.del 0 = List.range (pos s.len (c.ctr 0)) :=
+  cursor_all_schedules_F s progs hp σ 0
+
+def vec6 : KSrc := { kind := .vec, vals := [10, 11, 12, 13, 14, 15], dpanic := some 1 }
+
+/-- non-vacuity, on the concrete run of corpus-style case `chunk 5 nth:3` with the 2nd destruction panicking: `nth`
+discards 10, the destructor of 11 panics, the unwinding chunk destroys 12, 13 (which `nth` would have handed out) and
+14; the thread is dead; `Drop` destroys 15. -/
+example :
+    let c := runF vec6 [0, 0] (init vec6 fun t => if t = 0 then [⟨0, .chunk 5 (.nth 3)⟩, ⟨0, .next⟩] else [])
+    c.mv = [] ∧ c.dr = [0, 1, 2, 3, 4] ∧ (c.th 0).pc = .dead ∧ (ownerF vec6 c .drop).1.dr = [0, 1, 2, 3, 4, 5] := by decide
 
 def progsW : Nat → List SOp := fun t =>
   if t = 0 then [⟨0, .chunk 2 (.nth 1)⟩, ⟨0, .skip⟩] else if t = 1 then [⟨0, .foreach 2 (some 0)⟩] else []
